@@ -36,6 +36,11 @@ TraceSpec == TraceInit /\ [][TraceNext]_tvars
 TraceView == <<view, l>>
 \* a recorded trace must be complete: when the next one starts (or the log ends) the call has returned
 Complete == (l <= Len(TraceLog) /\ TraceLog[l].a = "Reset" /\ l > 1) => pc = "done"
+\* the action properties of the specification, exempting the driver's Reset step
+IsReset == l <= Len(TraceLog) /\ TraceLog[l].a = "Reset"
+T_NothingAfterResult == [][~IsReset => (result # None => UNCHANGED <<wire, tries, cur, secCalls>>)]_tvars
+T_FallbackOnlyAfterGiveUp ==
+  [][~IsReset => (cur' # cur => (cur = 1 /\ cur' = 2 /\ pc = "ready" /\ tries[1] = cfg.max + 1 /\ accepted = "-" /\ cfg.sec # "none"))]_tvars
 TraceAccepted == TLCGet("stats").diameter - 1 = Len(TraceLog)
 Reached == PrintT(<<"TRACE_REACHED", TLCGet("stats").diameter - 1>>)
 Post == Reached /\ TraceAccepted
